@@ -62,7 +62,10 @@ func (n *BaseStatNode) GetSum(event base.MetricEvent) int64 {
 }
 
 func (n *BaseStatNode) GetMaxAvg(event base.MetricEvent) float64 {
-	return float64(n.metric.GetMaxOfSingleBucket(event)) * float64(n.sampleCount) / float64(n.intervalMs) * 1000.0
+	// The maximum is taken over the buckets of the underlying array, so the count is a count per bucket of
+	// the array: its rate per second follows from the array's bucket length, not from the view's
+	// (intervalMs / sampleCount), which is a multiple of it.
+	return float64(n.metric.GetMaxOfSingleBucket(event)) / float64(n.arr.BucketLengthInMs()) * 1000.0
 }
 
 func (n *BaseStatNode) AddCount(event base.MetricEvent, count int64) {
